@@ -3,7 +3,8 @@ extracted model (OCaml driver) on the same requests."""
 import base64, json, os, subprocess, binascii
 
 VERIF = os.path.dirname(os.path.dirname(os.path.abspath(__file__)))
-BUILD = os.path.join(VERIF, 'build')
+BUILD = os.environ.get('VERIF_BUILD') or os.path.join(VERIF, 'build')
+REPO = os.environ.get('VERIF_REPO') or '/repo'
 HARNESS = os.path.join(BUILD, 'harness')
 DRIVER = os.path.join(BUILD, 'extract', 'driver')
 CLI = os.path.join(BUILD, 'anonymongo')
